@@ -341,7 +341,13 @@ def install_network(reg):
             if c.st.ghost.get("loop1") is not None and gh is not c.pn:
                 # proof steps (not visible to callers): what THIS iteration added, relative to the graph at its head
                 x = LBV.at(L)[c.i - 1]
-                steps = [("step.nodes_added_for_this_variable", z3.ForAll([n], G.nodes(c.pn)[n] == z3.Or(G.nodes(gh)[n], var_nodes(cx, c.network, x, n)))),
+                k1 = c.i - 1
+                split_n = z3.ForAll([n], z3.Exists([_a], z3.And(0 <= _a, _a < c.i, var_nodes(cx, c.network, LBV.at(L)[_a], n))) == z3.Or(
+                    z3.Exists([_a], z3.And(0 <= _a, _a < k1, var_nodes(cx, c.network, LBV.at(L)[_a], n))), var_nodes(cx, c.network, x, n)))
+                split_e = z3.ForAll([n, m], z3.Exists([_a], z3.And(0 <= _a, _a < c.i, var_edges(cx, c.network, LBV.at(L)[_a], n, m))) == z3.Or(
+                    z3.Exists([_a], z3.And(0 <= _a, _a < k1, var_edges(cx, c.network, LBV.at(L)[_a], n, m))), var_edges(cx, c.network, x, n, m)))
+                steps = [("step.split_off_the_last_variable(nodes)", split_n), ("step.split_off_the_last_variable(edges)", split_e),
+                         ("step.nodes_added_for_this_variable", z3.ForAll([n], G.nodes(c.pn)[n] == z3.Or(G.nodes(gh)[n], var_nodes(cx, c.network, x, n)))),
                          ("step.edges_added_for_this_variable", z3.ForAll([n, m], E(c.pn, n, m) == z3.Or(E(gh, n, m), var_edges(cx, c.network, x, n, m))))]
         except (KeyError, AttributeError):
             pass
